@@ -114,6 +114,9 @@ func (c *Console) Write(b []byte) (int, error) {
 	var out []byte
 	for {
 		k, err := syscall.Read(c.rfd, c.buf)
+		if err == syscall.EINTR {
+			continue // the runtime's preemption signal
+		}
 		if k > 0 {
 			out = append(out, c.buf[:k]...)
 		}
